@@ -9,16 +9,18 @@ open Dds
 def maxMipCount (n : Nat) : Nat := if n = 0 then 1 else Nat.log2 n + 1
 
 /-- write whatever surface the encoder reports as next until it is done or a call fails -/
-def writeAll (e : Enc) : Nat → List Nat → Enc × String × List Nat
+def writeAll (e : Enc) (genAfterFirst : Bool) : Nat → List Nat → Enc × String × List Nat
   | 0, acc => (e, "ok", acc.reverse)
   | fuel + 1, acc =>
     match e.iter.currentP with
     | none => (e, "panic", acc.reverse)
     | some none => (e, "ok", acc.reverse)
     | some (some s) =>
-      let (e', r) := e.write s.w s.h false
+      let (e1, r) := e.write s.w s.h false
+      -- mip mode `m`: generation is switched on after the first call
+      let e' := if genAfterFirst then { e1 with generate := true } else e1
       match r with
-      | .ok => writeAll e' fuel (e'.written :: acc)
+      | .ok => writeAll e' genAfterFirst fuel (e'.written :: acc)
       | r => (e', s!"err {encResName r}", (e'.written :: acc).reverse)
 
 /-- the model of the writer loop of the family of `px`; the sum of the write sizes -/
@@ -59,7 +61,7 @@ def runC10 (line : String) : String :=
         | some (.error e) => s!"err Layout{errName e}"
         | some (.ok L) =>
           let e0 := { Enc.new L mw mh with generate := mipmode == "g" }
-          let (e, res, lens) := writeAll e0 6000 []
+          let (e, res, lens) := writeAll e0 (mipmode == "m") 6000 []
           let main : Nat × Nat := match L with
             | .texture t => (t.w, t.h)
             | .volume v => (v.w, v.h)
